@@ -147,6 +147,24 @@ func modeSchedFree(a args) {
 		}
 		runHookBarrier(a, i)
 	}
+	// after-commands belong to the task: a dependant starts when they are over
+	for i := 0; i < a.n(3, 24); i++ {
+		if a.mine(i) {
+			runAfterDep(a, i)
+		}
+	}
+	// a failure published at an arbitrary instant of a pass: none of the many dependants may slip through
+	for i := 0; i < a.n(4, 40); i++ {
+		if a.mine(i) {
+			runFailStress(a, i)
+		}
+	}
+	// pipelines that must return although a context hook fails / an interactive task sits on an idle stdin
+	for i := 0; i < a.n(4, 32); i++ {
+		if a.mine(i) {
+			runHookFailure(a, i)
+		}
+	}
 	// C01 with real processes: a dependency whose command overruns its timeout and ignores the interrupt, in a
 	// stage that tolerates failure; the dependant must not start while that command is still executing
 	nt := a.n(3, 24)
@@ -205,6 +223,186 @@ func runHookBarrier(a args, idx int) {
 		out.Viol("C04", "eligible-stage-held-back-by-a-hook", "stage b became eligible while task a was inside its "+where+"-hook and did not execute until that hook had given up waiting for it", cas)
 	}
 	out.Nontrivial("C04", fmt.Sprint("hook-barrier", idx))
+}
+
+func runAfterDep(a args, idx int) {
+	dir := filepath.Join(a.Work, fmt.Sprintf("afterdep.%d", idx))
+	os.MkdirAll(dir, 0o755)
+	defer os.RemoveAll(dir)
+	trace := dir + "/trace"
+	tok := func(s string) string { return fmt.Sprintf("printf '%s\\n' >> '%s'", s, trace) }
+	dep := task.FromCommands(tok("DEP"))
+	dep.Name = "dep"
+	dep.After = []string{tok("AFTER_START") + "; sleep 0.3; " + tok("AFTER_END")}
+	if idx%2 == 1 {
+		dep.After = []string{tok("AFTER_START"), "sleep 0.2", tok("AFTER_END")}
+	}
+	child := task.FromCommands(tok("CHILD"))
+	child.Name = "child"
+	g, err := scheduler.NewExecutionGraph(&scheduler.Stage{Name: "dep", Task: dep}, &scheduler.Stage{Name: "child", Task: child, DependsOn: []string{"dep"}})
+	if err != nil {
+		return
+	}
+	out.Begin(fmt.Sprintf("after-dependency#%d", idx))
+	tr := newQuietRunner()
+	sch := scheduler.NewScheduler(tr)
+	sch.VerifSetPause(time.Millisecond)
+	done := make(chan error, 1)
+	go func() { done <- sch.Schedule(g) }()
+	select {
+	case <-done:
+	case <-time.After(60 * time.Second):
+		out.Inconclusive("C01", "after-dependency pipeline did not return within 60 s")
+		return
+	}
+	lockedFinish(sch.Finish)
+	time.Sleep(600 * time.Millisecond)
+	toks := strings.Fields(h.ReadFile(trace))
+	out.Count("executions", 1)
+	out.Count("after_dependency_pipelines", 1)
+	cas := map[string]interface{}{"trace": toks}
+	if strings.Join(toks, " ") != "DEP AFTER_START AFTER_END CHILD" {
+		out.Viol("C01", "dependant-started-before-after-commands-finished", fmt.Sprintf("trace %v; the dependency's task (its after-commands included) has to be over before the dependant starts: [DEP AFTER_START AFTER_END CHILD]", toks), cas)
+	}
+	out.Nontrivial("C01", fmt.Sprint("after-dependency", idx))
+}
+
+// stubRunner runs nothing: a task "fails" or "succeeds" after spinning for a while (no sleeping: the instant at
+// which the result is published is meant to fall anywhere inside a scheduling pass).
+type stubRunner struct {
+	mu   sync.Mutex
+	ran  map[string]int
+	spin map[string]int
+	fail map[string]bool
+}
+
+func (s *stubRunner) Run(t *task.Task) error {
+	n := s.spin[t.Name]
+	x := 0
+	for i := 0; i < n; i++ {
+		x += i % 7
+	}
+	_ = x
+	s.mu.Lock()
+	s.ran[t.Name]++
+	s.mu.Unlock()
+	if s.fail[t.Name] {
+		return fmt.Errorf("failed")
+	}
+	return nil
+}
+func (s *stubRunner) Cancel() {}
+func (s *stubRunner) Finish() {}
+
+func runFailStress(a args, idx int) {
+	r := h.NewRand(a.Seed*977+int64(idx), "failstress")
+	out.Begin(fmt.Sprintf("fail-stress#%d", idx))
+	bad := 0
+	trials := 120
+	for trial := 0; trial < trials; trial++ {
+		sr := &stubRunner{ran: map[string]int{}, spin: map[string]int{}, fail: map[string]bool{"F": true}}
+		var st []*scheduler.Stage
+		mk := func(name string, deps ...string) {
+			t := task.FromCommands("true")
+			t.Name = name
+			st = append(st, &scheduler.Stage{Name: name, Task: t, DependsOn: deps})
+		}
+		mk("F")
+		sr.spin["F"] = 2000 + r.Intn(400000)
+		var oks []string
+		for i := 0; i < 10; i++ {
+			n := fmt.Sprintf("ok%d", i)
+			mk(n)
+			sr.spin[n] = r.Intn(2000)
+			oks = append(oks, n)
+		}
+		for i := 0; i < 14; i++ {
+			mk(fmt.Sprintf("d%d", i), append([]string{"F"}, oks...)...)
+		}
+		g, err := scheduler.NewExecutionGraph(st...)
+		if err != nil {
+			return
+		}
+		sch := scheduler.NewScheduler(sr)
+		sch.VerifSetPause(0)
+		serr := sch.Schedule(g)
+		for i := 0; i < 14; i++ {
+			n := fmt.Sprintf("d%d", i)
+			stg, _ := g.Node(n)
+			if sr.ran[n] > 0 || stg.ReadStatus() != scheduler.StatusCanceled || serr == nil {
+				bad++
+				if bad == 1 {
+					out.Viol("C02", "ran-behind-failed-dependency", fmt.Sprintf("stress trial %d: dependant %s of the failed stage F: ran %d times, status %s, run error=%v (13 dependencies, failure published at an arbitrary instant)", trial, n, sr.ran[n], statusName(stg.ReadStatus()), serr != nil), map[string]interface{}{"trial": trial})
+					out.Viol("C01", "start-behind-failed-dependency", fmt.Sprintf("stress trial %d: dependant %s ran although its dependency F failed", trial, n), map[string]interface{}{"trial": trial})
+				}
+				break
+			}
+		}
+	}
+	out.Count("executions", int64(trials))
+	out.Count("fail_stress_trials", int64(trials))
+	out.Nontrivial("C02", fmt.Sprint("fail-stress", idx))
+}
+
+// runHookFailure: two parallel stages in one named context whose before-hook (`mkdir`) fails for the second one,
+// and - every other case - an interactive task on a stdin that stays open and silent. Whatever fails, the run returns.
+func runHookFailure(a args, idx int) {
+	dir := filepath.Join(a.Work, fmt.Sprintf("hookfail.%d", idx))
+	os.MkdirAll(dir, 0o755)
+	defer os.RemoveAll(dir)
+	tr := newQuietRunner()
+	tr.SetContexts(map[string]*runner.ExecutionContext{"locked": runner.NewExecutionContext(&utils.Binary{}, "", variables.NewVariables(), nil, nil,
+		[]string{fmt.Sprintf("mkdir '%s/lock'", dir)}, []string{fmt.Sprintf("rmdir '%s/lock'", dir)})})
+	var st []*scheduler.Stage
+	for i := 0; i < 3; i++ {
+		t := task.FromCommands("sleep 0.1")
+		t.Name = fmt.Sprintf("h%d", i)
+		t.Context = "locked"
+		st = append(st, &scheduler.Stage{Name: t.Name, Task: t, AllowFailure: true})
+	}
+	later := task.FromCommands("true")
+	later.Name = "later"
+	later.Context = "locked"
+	st = append(st, &scheduler.Stage{Name: "later", Task: later, DependsOn: []string{"h0", "h1", "h2"}, AllowFailure: true})
+	interactive := idx%2 == 1
+	if interactive {
+		pr, pw, err := os.Pipe()
+		if err == nil {
+			defer pw.Close()
+			defer pr.Close()
+			tr.Stdin = pr
+			it := task.FromCommands("sh -c 'exit 0'", "sh -c 'exit 0'")
+			it.Name = "asks"
+			it.Interactive = true
+			st = append(st, &scheduler.Stage{Name: "asks", Task: it}, &scheduler.Stage{Name: "after-asks", Task: task.FromCommands("true"), DependsOn: []string{"asks"}})
+			st[len(st)-1].Task.Name = "after-asks"
+		}
+	}
+	g, err := scheduler.NewExecutionGraph(st...)
+	if err != nil {
+		return
+	}
+	out.Begin(fmt.Sprintf("hook-failure#%d interactive=%v", idx, interactive))
+	sch := scheduler.NewScheduler(tr)
+	sch.VerifSetPause(time.Millisecond)
+	done := make(chan error, 1)
+	go func() { done <- sch.Schedule(g) }()
+	cas := map[string]interface{}{"interactive_stage": interactive}
+	select {
+	case <-done:
+	case <-time.After(45 * time.Second):
+		out.Viol("C03", "schedule-did-not-return/hook-failure", "a pipeline whose commands all terminate (a context before-hook fails for some stages"+map[bool]string{true: "; an interactive task on an idle stdin", false: ""}[interactive]+") did not return within 45 s", cas)
+		return
+	}
+	for _, s := range st {
+		if rs := s.ReadStatus(); rs == scheduler.StatusWaiting || rs == scheduler.StatusRunning {
+			out.Viol("C03", "stage-left-"+strings.ToLower(statusName(rs)), "hook-failure pipeline: stage "+s.Name+" is "+statusName(rs)+" after Schedule returned", cas)
+		}
+	}
+	lockedFinish(sch.Finish)
+	out.Count("executions", 1)
+	out.Count("hook_failure_pipelines", 1)
+	out.Nontrivial("C03", fmt.Sprint("hook-failure", idx))
 }
 
 func runTimeoutDep(a args, idx int) {
